@@ -83,6 +83,19 @@ func (t *readTracker) Read(p []byte) (int, error) {
 	return n, err
 }
 
+// dropPartialLine cuts off the n bytes of a line whose write failed half-way (disk full,
+// file size limit), so that an output file always ends on a line boundary. Outputs that
+// cannot be truncated (pipes, terminals) are left as they are.
+func dropPartialLine(w io.Writer, n int) {
+	f, ok := w.(*os.File)
+	if !ok || n <= 0 {
+		return
+	}
+	if off, err := f.Seek(0, io.SeekCurrent); err == nil && off >= int64(n) {
+		_ = f.Truncate(off - int64(n))
+	}
+}
+
 func processMongoLogStream(r io.Reader, outWriter io.Writer, bar *progressbar.ProgressBar) error {
 	tracked := &readTracker{r: r}
 	scanner := bufio.NewScanner(tracked)
@@ -108,7 +121,8 @@ func processMongoLogStream(r io.Reader, outWriter io.Writer, bar *progressbar.Pr
 			addOneToBar(bar)
 			continue
 		}
-		if _, err := fmt.Fprintln(outWriter, string(out)); err != nil {
+		if n, err := fmt.Fprintln(outWriter, string(out)); err != nil {
+			dropPartialLine(outWriter, n)
 			return fmt.Errorf("failed to write output: %w", err)
 		}
 		// addOneToBar already handles the nil check for 'bar', so no need for an 'if' here.
